@@ -139,13 +139,15 @@ Fixpoint remove_nth {A} (i : nat) (xs : list A) : list A :=
 
 Definition ids_of (ts : list (node * val)) : list nid := map (fun t => n_id (fst t)) ts.
 
-(* result, executions started, and the nodes that are still running when the run returns *)
+(* result, executions started, and the nodes that are still running when the run returns.
+   [pick] is any function of the running list; its value is reduced modulo the number of
+   running tasks, so every function is a schedule (x mod 0 = x, and nothing is found in []). *)
 Fixpoint run_eager (pick : list (node * val) -> nat) (g : graph) (fuel : nat)
          (s : cstate) (running : list (node * val)) (log : exec_log) : outcome * exec_log * list nid :=
   match fuel with
   | O => (OFuel, log, ids_of running)
   | S f =>
-      let i := pick running in
+      let i := Nat.modulo (pick running) (List.length running) in
       match nth_error running i with
       | None => (OFail, log, [])                  (* nothing is running: "no tasks to execute" *)
       | Some t =>
@@ -163,6 +165,15 @@ Definition eager (pick : list (node * val) -> nat) (g : graph) (fuel : nat) : ou
   | NTasks ts s => run_eager pick g fuel s ts (log_of ts)
   end.
 
+(* two particular schedules: the oldest running task first; the oldest running task that does
+   not fail first (a failing one only when nothing else is running) *)
+Definition pick_first (ts : list (node * val)) : nat := O.
+Fixpoint pick_ok (ts : list (node * val)) : nat :=
+  match ts with
+  | [] => O
+  | t :: ts' => if failed t then S (pick_ok ts') else O
+  end.
+
 (* nodes from which END is reachable (the executions that feed the result) *)
 Fixpoint anc_iter (g : graph) (fuel : nat) (acc : list nid) : list nid :=
   match fuel with
@@ -172,3 +183,7 @@ Fixpoint anc_iter (g : graph) (fuel : nat) (acc : list nid) : list nid :=
       anc_iter g f (fold_left (fun a x => if nmem x a then a else x :: a) more acc)
   end.
 Definition ancestors (g : graph) : list nid := anc_iter g (List.length g) [END].
+
+(* the executions of a log that feed END *)
+Definition feeding (g : graph) (l : exec_log) : exec_log :=
+  let a := ancestors g in filter (fun x => nmem (fst x) a) l.
